@@ -19,7 +19,7 @@ PROCS = int(os.environ.get("VERIF_PROCS", "4"))
 # None: every generated behaviour is replayed (both tiers); an integer keeps that many seeded members per
 # alteration class (for slow machines)
 SUBSET = int(os.environ["VERIF_C15_SUBSET"]) if os.environ.get("VERIF_C15_SUBSET") else None
-ACTIONS = ("GetUdTyped", "NodeCall1", "NodeCall2", "Onboard", "Handshake", "GetDeviceKey", "SetupEndo", "EndoAck", "SaveAttCert", "LoadAttCert",
+ACTIONS = ("VerifyPrev", "GetUdTyped", "NodeCall1", "NodeCall2", "Onboard", "Handshake", "GetDeviceKey", "SetupEndo", "EndoAck", "SaveAttCert", "LoadAttCert",
            "Unlock", "UiAppHash", "UiUd", "UiPage", "UiSig", "ExitUi", "SgGet", "SgMsgPage", "SgEnvPage",
            "SgAppHash", "HealthCheck", "SaveCert", "SxUnlock", "SxGet", "SxMsgPage", "SxEnvPage",
            "SxAppHash", "SxParse", "SxConvert", "SxSave", "Verify", "Reverify")
@@ -27,11 +27,13 @@ ACTIONS = ("GetUdTyped", "NodeCall1", "NodeCall2", "Onboard", "Handshake", "GetD
 MODEL_BUGS = (("notweak", "AlteredFails"), ("dropfirst", "GenuineVerifies"), ("maxpages", "GenuineGathers"),
               ("swapmsg", "GenuineVerifies"), ("wrongtweak", "GenuineVerifies"), ("nobind", "AlteredFails"),
               ("nohealth", "AlteredFails"), ("udslice", "GenuineGathers"), ("noidcheck", "NodeBad"),
-              ("nostatus", "NodeBad"), ("derpad", "GenuineVerifies"))
+              ("nostatus", "NodeBad"), ("derpad", "GenuineVerifies"), ("setdefault", "GenuineVerifies"))
 NEGATIVES = ("NeverVerifies", "NeverGatherFails", "NeverVerifyFails", "NeverLegacy", "NeverFourPages",
-             "NeverNodeOk", "NeverReorgOk", "NeverNodeFails", "NeverRootByUrl", "NeverRootUrlBad", "NeverShapedOk")
+             "NeverNodeOk", "NeverReorgOk", "NeverNodeFails", "NeverRootByUrl", "NeverRootUrlBad", "NeverShapedOk", "NeverSecondRunOk", "NeverInplaceOk",
+             "NeverSecondRunAlteredFails")
 TRACE_KEYS = ("id", "udsrc", "node", "node_at", "node_n", "node_url", "rootvia", "root_url", "http", "ud_sent",
-              "att_file", "contacted", "g_err", "v_err", "sigsite", "sigclass", "plat", "alt", "dev", "g_onboard", "g_attest", "gather", "file0", "reload0", "file",
+              "att_file", "contacted", "g_err", "v_err", "sigsite", "sigclass", "hist", "prev_ok", "dev_prev", "earlier_before",
+              "earlier_after", "verify_prev", "printed_prev", "plat", "alt", "dev", "g_onboard", "g_attest", "gather", "file0", "reload0", "file",
               "reload", "reload_ok", "verify", "printed", "verify2", "printed2")
 
 
@@ -174,6 +176,8 @@ def random_case(rng):
     if rng.random() < 0.3:          # any alteration / network choice may meet any signature shape
         shapes = attflow.SHAPES_SECP if plat == "ledger" else attflow.SHAPES_P256
         b["shape"] = {"site": rng.choice(attflow.SIG_SITES[plat]), "cls": rng.choice(shapes)}
+    if net["ud"] == "hex" and rng.random() < 0.3:      # ... and any two-run history
+        b["hist"] = rng.choice(("reattest", "inplace", "sameout", "reuse0") if plat == "ledger" else ("sameout", "two"))
     c = attflow.concretise(b, rng)
     c["random"] = True
     return c
@@ -246,6 +250,18 @@ def corrupted_observations(cases, results):
         o = copy.deepcopy(nodebad)
         o["att_file"] = "yes"
         out.append((o, "NodeBad"))
+    two = next((o for (o, _d), c in zip(results, cases)
+                if o["hist"] in ("reattest", "reuse0", "two") and o["verify"] == "ok" and o["verify_prev"] == "ok"), None)
+    if two:
+        o = copy.deepcopy(two)
+        o["earlier_after"][-1][0][1] = "0" * 64
+        out.append((o, "EarlierKept"))
+        o = copy.deepcopy(two)
+        o["printed_prev"]["s_ud"] = o["printed"]["s_ud"]
+        out.append((o, "PrevKept"))
+        o = copy.deepcopy(two)
+        o["prev_ok"] = "fail"
+        out.append((o, "FirstRunGathers"))
     if urlok:
         o = copy.deepcopy(urlok)
         o["http"] = [c for c in o["http"] if c["verb"] != "get"][:]
@@ -292,7 +308,7 @@ def judge(res, cases, results, src, stats_acc):
     # self-test of the trace specification; on a tree that already violates the property the picked
     # observations may be rejected earlier than planned, which is not a failure of the machinery
     if not res.violations:
-        if len(synthetic) < 15:
+        if len(synthetic) < 18:
             raise core.MachineryError("self-test of the trace specification could not be built")
         for k, (o, want) in enumerate(synthetic):
             v = verdicts[len(results) + 1 + k]
@@ -399,9 +415,9 @@ def run(ctx):
     scases = []
     for _dev in range(ctx.pick(1, 3)):            # thorough: every byte position, three devices
         scases += attflow.sweep_cases(ctx.rng, stride=ctx.pick(29, 1))
-    bcases = attflow.content_cases(ctx.rng)
+    bcases = attflow.content_cases(ctx.rng) + attflow.history_cases(ctx.rng)
     for _rep in range(ctx.pick(0, 9)):
-        bcases += attflow.content_cases(ctx.rng)
+        bcases += attflow.content_cases(ctx.rng) + attflow.history_cases(ctx.rng)
     everything = cases + rcases + scases + bcases
     # 3. the real commands, end to end, on real files
     allres = run_cases(ctx, everything)
@@ -453,6 +469,11 @@ def run(ctx):
                 seen[k] = seen.get(k, 0) + 1
     res.coverage["signature_shapes_ground"] = dict(sorted(ground.items()))
     res.coverage["signature_component_classes_seen"] = dict(sorted(seen.items()))
+    hists = {}
+    for c in everything:
+        k = "%s %s %s" % (c["plat"], c.get("hist", "single"), "altered" if c["alt"]["site"] != "none" else "genuine")
+        hists[k] = hists.get(k, 0) + 1
+    res.coverage["histories"] = dict(sorted(hists.items()))
     res.coverage["node_runs"] = sum(1 for c in everything if c.get("udsrc") == "node")
     res.coverage["node_behaviours_hit"] = sorted({"%s@%d" % (c["node"], c["node_at"]) for c in everything
                                                   if c.get("udsrc") == "node"})
